@@ -8,6 +8,10 @@ REPO = os.path.abspath(os.environ.get("VERIF_REPO", "/repo"))
 
 def bootstrap():
     """Make `import cyecca` resolve to REPO's current working tree."""
+    import warnings
+
+    warnings.filterwarnings("ignore", category=FutureWarning)
+    warnings.filterwarnings("ignore", category=DeprecationWarning)
     if sys.path[0] != REPO:
         sys.path.insert(0, REPO)
     if "cyecca" in sys.modules:
